@@ -36,7 +36,47 @@ def build(rng, tier):
                             union[r] = union.get(r, []) + list(rows)
                     ops += [f"eng run {inst}", f"eng dump {inst}"]; marks.append({r: list(v) for r, v in union.items()})
             cases.append(engcheck.Case(pid, inst, ops, {"inp": inp, "marks": marks, "kind": "history"}))
+    # parallel twins (re-runs of ascent_par! programs panicked before the fix of F4)
+    for i, p in enumerate(plist[: 4 if tier == "quick" else 20]):
+        pid = f"hp{i}"
+        progs[pid] = p
+        mods.append((pid, eng.rs_module(pid, p, macro="ascent_par")))
+        for j in range(3):
+            r2 = rng.fork(f"{pid}h{j}")
+            inp = gen.gen_input(r2, p, max_rows=6)
+            extra = gen.gen_input(r2, p, max_rows=3)
+            inst = f"{pid}_{j}"
+            ops = [f"eng new {inst} {pid} par {r2.choice([1, 2, 4, 8])}"] + engcheck.load_ops(inst, inp) + [f"eng run {inst}", f"eng dump {inst}", f"eng run {inst}", f"eng dump {inst}"]
+            union = {r: list(v) for r, v in inp.items()}
+            for r, rows in extra.items():
+                if rows:
+                    ops.append(f"eng push {inst} r{r}" + "".join(" " + eng.sx_tuple(t) for t in rows)); union[r] = union.get(r, []) + list(rows)
+            ops += [f"eng run {inst}", f"eng dump {inst}"]
+            cases.append(engcheck.Case(pid, inst, ops, {"inp": inp, "marks": ["same", union], "kind": "par-history"}))
+    # programs WITH aggregation: the statement's first half (idempotence) is claimed for them too and fails (finding F2)
+    for i, p in enumerate(engcheck.make_programs(rng.fork("c13agg"), 3 if tier == "quick" else 12, genf=gen.gen_agg_program, filt=eng.stratifiable)):
+        pid = f"ha{i}"
+        progs[pid] = p
+        mods.append((pid, eng.rs_module(pid, p)))
+        for j in range(3):
+            inp = gen.nodup_input(rng.fork(f"{pid}h{j}"), p, max_rows=6)
+            inst = f"{pid}_{j}"
+            ops = [f"eng new {inst} {pid}"] + engcheck.load_ops(inst, inp) + [f"eng run {inst}", f"eng dump {inst}", f"eng run {inst}", f"eng dump {inst}"]
+            cases.append(engcheck.Case(pid, inst, ops, {"inp": inp, "marks": ["same"], "kind": "agg-rerun", "class": "F2"}))
+    # fixed witness of F2
+    w = {"rels": [{"arity": 2}, {"arity": 1}, {"arity": 2}],
+         "rules": [{"heads": [(2, [("var", 0), ("var", 21)])], "body": [("cl", 1, [("v", 0)], []), ("agg", [21], "count", [], 0, [("k", ("var", 0)), "_"])]}]}
+    winp = {0: [(1, 1), (1, 2), (2, 5)], 1: [(1,), (2,)]}
+    progs["f2w"] = w; mods.append(("f2w", eng.rs_module("f2w", w)))
+    cases.append(engcheck.Case("f2w", "f2w_0", ["eng new f2w_0 f2w"] + engcheck.load_ops("f2w_0", winp) + ["eng run f2w_0", "eng dump f2w_0", "eng run f2w_0", "eng dump f2w_0"],
+                               {"inp": winp, "marks": ["same"], "kind": "agg-rerun", "class": "F2"}))
     return progs, mods, cases
+
+
+def known(c, p, impl, model):
+    if c.meta.get("class") == "F2" and model is not None and impl == model:
+        return ("F2", "a second run() re-inserts every row into the Vec-backed indices; programs aggregating (count/sum) over them derive new tuples on re-run")
+    return None
 
 
 def oracle(c, p, out):
@@ -58,7 +98,7 @@ def oracle(c, p, out):
 
 def check(tier, replay=None):
     return engcheck.run_property("C13", tier, modules=["AscentVerif.Props.C13"], theorems=THEOREMS, trusted=TRUSTED, group="c13",
-                                 build=build, oracle=oracle, what="histories of run / push on compiled programs",
+                                 build=build, oracle=oracle, known=known, what="histories of run / push on compiled programs",
                                  rule="generated aggregation-free programs x histories run; (run | push facts into any relations incl. derived ones; run){1..3}; "
                                       "after an unmodified re-run every relation must be unchanged as a set, after pushes it must equal the naive least model "
                                       "of the union of everything loaded and pushed; impl vs model compared with multiplicities")
